@@ -261,3 +261,78 @@ def token_progress(ctx=None):
     shape2 = 'while index <= end' in src2 and 'index = m.end(0)' in src2 and 'if m is None:' in src2 and 'index += 1' in src2
     out.append(ob('C20.O3/pretty.loop', 'pretty(): each iteration consumes a non-empty token or one character (index strictly increases up to len)', shape2, detail=[src2[-400:]]))
     return out
+
+
+def C17_indet_guard(ctx=None):
+    """The assumption of match_indeterminate's contract ("the element asking is not itself a checked member of its group") rests on
+    three facts read from /repo on every run: (S1) the SEL_INDETERMINATE flag is only ever put on the last compound of the pre-compiled
+    CSS_INDETERMINATE list; (S2) that compound carries :not([checked]) - one attribute test on `checked`, nothing else - as a sub-list;
+    (S3) the hub evaluates the sub-lists of a compound before it calls match_indeterminate."""
+    out = []
+    ptree, ppath = module_tree('soupsieve.css_parser')
+    # S1
+    uses = []
+    for n in ast.walk(ptree):
+        if isinstance(n, ast.Name) and n.id == 'FLG_INDETERMINATE':
+            uses.append(n)
+    consts = [n for n in ptree.body if isinstance(n, ast.Assign) and isinstance(n.value, ast.Call) and
+              'FLG_INDETERMINATE' in ast.unparse(n.value) and isinstance(n.value.func, ast.Attribute) and n.value.func.attr == 'process_selectors']
+    names = [ast.unparse(n.targets[0]) for n in consts]
+    sets = [ast.unparse(n) for n in ast.walk(ptree) if isinstance(n, ast.Assign) and 'SEL_INDETERMINATE' in ast.unparse(n.value)]
+    guarded = [ast.unparse(n.test) for n in ast.walk(ptree) if isinstance(n, ast.If) and any('SEL_INDETERMINATE' in ast.unparse(b) for b in n.body)]
+    out.append(ob('C17.S-indet-flag', 'SEL_INDETERMINATE is set only by `selectors[-1].flags = ct.SEL_INDETERMINATE` under `if is_indeterminate`, and '
+                  'FLG_INDETERMINATE is passed only when compiling CSS_INDETERMINATE',
+                  names == ['CSS_INDETERMINATE'] and len(uses) == 3 and sets == ['selectors[-1].flags = ct.SEL_INDETERMINATE'] and guarded == ['is_indeterminate'],
+                  detail=[names, len(uses), sets, guarded]))
+    # S2: the real constant
+    import sys
+    if REPO not in sys.path:
+        sys.path.insert(0, REPO)
+    from soupsieve import css_parser as cp, css_types as ct
+
+    def compounds(sl, acc):
+        for s in sl.selectors:
+            if isinstance(s, ct.SelectorNull):
+                continue
+            acc.append(s)
+            for sub in s.selectors:
+                compounds(sub, acc)
+            if s.relation.selectors:
+                compounds(s.relation, acc)
+        return acc
+
+    def is_not_checked(sl):
+        if not sl.is_not or len(sl.selectors) != 1:
+            return False
+        s = sl.selectors[0]
+        if isinstance(s, ct.SelectorNull) or len(s.attributes) != 1:
+            return False
+        a = s.attributes[0]
+        plain = (s.tag is None or (s.tag.name == '*' and s.tag.prefix is None)) and not s.ids and not s.classes and not s.nth and not s.selectors \
+            and not s.relation.selectors and s.rel_type is None and not s.contains and not s.lang and s.flags == 0
+        return plain and a.attribute == 'checked' and not a.prefix and a.pattern is None and a.xml_type_pattern is None
+    flagged = [s for s in compounds(cp.CSS_INDETERMINATE, []) if s.flags & ct.SEL_INDETERMINATE]
+    ok2 = len(flagged) == 1 and all(any(is_not_checked(sub) for sub in s.selectors) for s in flagged)
+    out.append(ob('C17.S-indet-guard', 'the compound of CSS_INDETERMINATE that carries SEL_INDETERMINATE has the sub-list :not([checked]) '
+                  '(one bare attribute test on `checked`)', ok2, detail=[len(flagged)]))
+    # other pre-compiled lists and user patterns never carry the flag
+    others = [n for n in dir(cp) if n.startswith('CSS_') and n != 'CSS_INDETERMINATE' and isinstance(getattr(cp, n), ct.SelectorList)]
+    bad = [n for n in others if any(s.flags & ct.SEL_INDETERMINATE for s in compounds(getattr(cp, n), []))]
+    out.append(ob('C17.S-indet-only', 'no other pre-compiled list carries SEL_INDETERMINATE', not bad and len(others) >= 10, detail=[bad, len(others)]))
+    # S3: order of the tests in the hub
+    mtree, mpath = module_tree('soupsieve.css_match')
+    hub = method(classes(mtree)['CSSMatch'], 'match_selectors')
+    order = []
+    for n in ast.walk(hub):
+        if isinstance(n, ast.For):
+            for st in n.body:
+                if isinstance(st, ast.If) and len(st.body) == 1 and isinstance(st.body[0], ast.Continue):
+                    src = ast.unparse(st.test)
+                    for nm in ('match_subselectors', 'match_indeterminate'):
+                        if f'self.{nm}(' in src:
+                            order.append((nm, src))
+    ok3 = [o[0] for o in order] == ['match_subselectors', 'match_indeterminate'] and \
+        order[0][1] == 'selector.selectors and (not self.match_subselectors(el, selector.selectors))' and \
+        order[1][1] == 'selector.flags & ct.SEL_INDETERMINATE and (not self.match_indeterminate(el))'
+    out.append(ob('C17.S-hub-order', 'the hub skips a compound whose sub-lists fail before it asks match_indeterminate', ok3, detail=order))
+    return out
